@@ -124,6 +124,19 @@ func c13Scenario(name string, prefix []string) *Scenario {
 			}
 		}
 	}
+	// parameter updates nested in an authz MsgExec whose grantee names itself as the authority (authz needs no
+	// grant when granter and grantee coincide): still only the governance authority may update parameters
+	for _, k := range []string{model.EntParams, model.WrkParams, model.BcnParams, model.StrParams} {
+		for _, x := range accts {
+			k, x := k, x
+			s.Actions = append(s.Actions, Action{Name: fmt.Sprintf("exec(%s,%s[names %s])", x, k, x), Dt: ms,
+				Txs: func(m *model.State) []model.Tx {
+					msg, _ := mk[k](x, m)
+					return []model.Tx{{Msgs: []model.Msg{{Kind: model.AuthzExec, From: x, Inner: []model.Msg{msg}}}}}
+				},
+				Enabled: func(_ *model.State, aux map[string]int) bool { return aux["base"] >= 1 }})
+		}
+	}
 	// the base letters are only for the prefix; the search itself is the fan-out
 	for i := 0; i < base; i++ {
 		s.Actions[i].Enabled = func(*model.State, map[string]int) bool { return false }
